@@ -484,10 +484,8 @@ func (db *Backend) ListBucketVersions(
 	var match gofakes3.PrefixMatch
 
 	if page.KeyMarker != "" {
-		if !prefix.Match(page.KeyMarker, &match) {
-			// FIXME: NO idea what S3 would do here.
-			return result, gofakes3.ErrInternal
-		}
+		// The markers are a position in the key order, whether or not the key
+		// they name matches the prefix of this request.
 		iter.Seek(page.KeyMarker)
 	}
 
@@ -509,6 +507,12 @@ func (db *Backend) ListBucketVersions(
 	for iter.Next() {
 		object := iter.Value().(*bucketObject)
 
+		// The version marker belongs to the key the key marker names, not to
+		// whichever key happens to be listed first (the marker key may be
+		// filtered out by the prefix or rolled into a common prefix):
+		atMarker := first && page.VersionIDMarker != "" && object.name == page.KeyMarker
+		first = false
+
 		if !prefix.Match(object.name, &match) {
 			continue
 		}
@@ -519,14 +523,13 @@ func (db *Backend) ListBucketVersions(
 		}
 
 		versions := iter.Value().(*bucketObject).Iterator()
-		if first {
-			if page.VersionIDMarker != "" {
-				if !versions.Seek(page.VersionIDMarker) {
-					// FIXME: log
-					return result, gofakes3.ErrInternal
-				}
+		if atMarker {
+			// "null" is the ID a bucket without versioning reports for its one
+			// version per key. Resuming after that version, or after a version
+			// that no longer exists, is resuming after the key.
+			if page.VersionIDMarker == "null" || !versions.Seek(page.VersionIDMarker) {
+				continue
 			}
-			first = false
 		}
 
 		for versions.Next() {
